@@ -313,7 +313,7 @@ class OldTextTemplate(Template):
             elif command == 'include':
                 pos = (self.filename, lineno, 0)
                 stream.append((INCLUDE, (value.strip(), None, []), pos))
-            elif command != '#':
+            elif not command.startswith('#'):
                 cls = self.get_directive(command)
                 if cls is None:
                     raise BadDirectiveError(command)
